@@ -80,6 +80,10 @@ XmlDoctype == {"doctype_text", "doctype_attr", "external_entity", "external_para
 Xmls == {"wf"} \cup XmlBroken \cup XmlDoctype
 EnvelopesOf(t) ==
   {"valid", "no_header", "no_action", "wrong_action", "unknown_action", "no_body", "no_msgid"}
+  \* legal but unusual WS-Addressing header blocks: a reply / fault endpoint that is not the anonymous one, a source
+  \* endpoint, a header block of a foreign namespace.  An endpoint may serve or refuse such a request - but a refusal
+  \* must leave MDIB and subscription table alone (RejectIsNoop), however late in the handling it is decided
+  \cup {"addr_replyto", "addr_faultto", "addr_from", "addr_foreign_header"}
   \cup (IF t \in EmptyBodyTargets THEN {} ELSE {"empty_body", "renamed_body_elem", "dup_body_elem"})
   \cup (IF t \in NumTargets THEN {"num_huge", "num_negative"} ELSE {})
   \cup (IF t \in ReqTargets THEN {"del_required"} ELSE {})
@@ -154,7 +158,8 @@ RawVerdict(s, r) ==
          IF ~post THEN "pass"
          ELSE IF r.envelope \in {"no_body", "del_required"} THEN "reject"
          ELSE IF r.envelope \in {"renamed_body_elem", "num_huge", "num_negative", "dup_body_elem", "no_header",
-                                 "no_action", "no_msgid"} THEN "any"
+                                 "no_action", "no_msgid", "addr_replyto", "addr_faultto", "addr_from",
+                                 "addr_foreign_header"} THEN "any"
          ELSE "pass"
     [] s = "Dispatch" ->
          IF r.path = "unknown_service" /\ (Endpoint(r.target) = "provider") THEN "reject"
@@ -164,7 +169,8 @@ RawVerdict(s, r) ==
          ELSE "pass"
     [] s = "Handle" ->
          IF r.target \in UnimplTargets THEN "reject"
-         ELSE IF post /\ r.envelope \in {"no_msgid", "num_huge", "num_negative", "dup_body_elem"} THEN "any"
+         ELSE IF post /\ r.envelope \in {"no_msgid", "num_huge", "num_negative", "dup_body_elem", "addr_replyto",
+                                         "addr_faultto", "addr_from", "addr_foreign_header"} THEN "any"
          ELSE "pass"
 
 Verdict(s, r) == IF s \in {"Read", "Decode", "Route"} THEN RawVerdict(s, r) ELSE Weaken(r, RawVerdict(s, r))
